@@ -216,7 +216,7 @@ def work(payload, skip, report):
                     acc.distinct("skeletons", sorted(got.items()))
                 for oracle, obs, exp in out:
                     acc.violation(oracle, {"input": text, "doc": [list(x) for x in doc], "filler": FILLERS[f]}, obs, exp)
-                if i % 30011 == 0:
+                if i == 5 or i % 1009 == 0:
                     acc.sample({"input": text})
     close_ctx(ctx)
     return acc
